@@ -1,10 +1,11 @@
 #!/bin/sh
-# Build the framework from files on disk only (offline): Lean models+proofs+driver, then the Rust harness against /repo.
+# Build the framework from files on disk only (offline): Lean models+proofs+drivers, then the Rust harness against /repo.
 set -e
 cd "$(dirname "$0")"
 export CARGO_NET_OFFLINE=true
 python3 tools/extract.py
-(cd lean && lake build Mimium mmdriver)
+python3 tools/mklake.py
+(cd lean && lake build Mimium $(ls Drv | sed -n 's/\(.*\)\.lean/drv_\L\1/p'))
 cp -f /repo/Cargo.lock harness/Cargo.lock
 (cd harness && RUSTFLAGS="--cfg mimium_verif" CARGO_TARGET_DIR=/verif/target cargo build --offline --quiet)
 echo setup-ok
